@@ -44,7 +44,7 @@ func ZZ_C16_KillYank() {
 	script.OnWait = func() {
 		switch wait {
 		case 0:
-			rl.line.Set(buf...)
+			rl.line.Set(zzCopy(buf)...)
 			if cmd == "kill-region" {
 				rl.cursor.Set(zzverif.IntRange("mark", 0, n))
 				rl.cursor.SetMark()
